@@ -1,5 +1,6 @@
 import Spine.Heap
 import Spine.ExtractFilter
+import Spine.C04Applied
 open Spine Spine.Heap
 /-! Line protocol for the store / sharing model (C04, C11). One op per line, one answer per line.
 
@@ -20,6 +21,13 @@ open Spine Spine.Heap
         partial filter's data, P / D a further partial / delete filter without data, o / e an entry without cmdControl
         resp. with an empty one — and `Cmd.ExtractFilter` (Spine.extractFilter) picks what UpdateData gets
                                             -> as upd
+    judge <ok 0|1> <before> <after> <items> <fpk> <fps> <fpe> <fdk> <fds> <fde>
+        SPEC evaluation on the IMPLEMENTATION's own data (stateless): a remote persisting write was answered with
+        success (1) or an error (0), the function's data read `before` resp. `after` it. Evaluates the statements of
+        `c04_success_all_applied_store` / `c04_error_unchanged_exact` with the functions the theorems are stated with.
+                                            -> fast                               (the replace fast path: not judged here)
+                                             | applied=<0|1> expect=<items>       (success)
+                                             | region=<in|out> unchanged=<0|1>    (error)
     read <struct id>                        -> items
     store                                   -> items of the stored value
     dump                                    -> the items of every struct, in id order, separated by `|`
@@ -87,6 +95,23 @@ def step (st : St) (line : String) : St × String :=
         | .panic => "panic"
         | .done ok i o => s!"ok={if ok then 1 else 0} in={i} ret={match o with | some o => toString o | none => "nil"}")
     | _, _, _, _ => (st, "bad-op")
+  | ["judge", v, before, after, nw, fpk, fps, fpe, fdk, fds, fde] =>
+    match parseBool v, parseFArg fpk fps fpe, parseFArg fdk fds fde with
+    | some v, some fp, some fd =>
+      let ex := parseList before
+      let af := parseList after
+      let nw := parseList nw
+      if fp.isNil && fd.isNil && st.cfg.fastpathRemote then (st, "fast")
+      else if v then
+        let e := partialApplied st.cfg.u st.sh true nw fp.toOpt (delPhaseApplied st.cfg.u st.sh true fd.toOpt ex)
+        (st, s!"applied={if e == af then 1 else 0} expect={showList e}")
+      else
+        let noEl := match fd.toOpt with
+          | some f => f.el.isNone
+          | none => true
+        let inside := noEl && !partialTouches st.cfg.u st.sh true nw fp.toOpt ex
+        (st, s!"region={if inside then "in" else "out"} unchanged={if ex == af then 1 else 0}")
+    | _, _, _ => (st, "bad-op")
   | ["read", s] => match s.toNat? with
     | some s => (st, showList (st.h.readStruct s))
     | none => (st, "bad-op")
